@@ -137,6 +137,51 @@ fn one_text(ctx: &Ctx, acc: &mut Acc, l: L, lang: &text2num::Language, text: &st
     }
 }
 
+/// clause 4 on word-only token streams (no separator tokens, as ASR / NLP pipelines produce them):
+/// occurrences can then be directly adjacent
+fn one_stream(ctx: &Ctx, acc: &mut Acc, l: L, lang: &text2num::Language, syms: &[&str]) {
+    acc.states += 1;
+    let h: Vec<HTok> = syms.iter().enumerate().map(|(i, w)| HTok::new(i, w)).collect();
+    let n = h.len();
+    for &t in &[0.0, 10.0] {
+        acc.transitions += n as u64;
+        acc.traces += 1;
+        let Ok((occ, res)) = guard(|| (stream::find(&h, lang, t), replace_numbers_in_stream(h.clone(), lang, t))) else { continue };
+        if t == 0.0 && occ.len() > 1 {
+            acc.nontrivial += 1;
+        }
+        let mut flat: Vec<usize> = vec![];
+        let mut groups: Vec<(Vec<usize>, String)> = vec![];
+        let mut kept_ok = true;
+        for x in &res {
+            match &x.replaced {
+                Some(ids) => {
+                    flat.extend(ids.iter().copied());
+                    groups.push((ids.clone(), x.text.clone()));
+                }
+                None => {
+                    flat.push(x.id);
+                    if x.id >= n || h[x.id] != *x {
+                        kept_ok = false;
+                    }
+                }
+            }
+        }
+        let expected_flat: Vec<usize> = (0..n).collect();
+        let expected_groups: Vec<(Vec<usize>, String)> = occ.iter().map(|o| ((o.start..o.end).collect(), o.text.clone())).collect();
+        let bad = if flat != expected_flat || !kept_ok {
+            Some(("each input token is kept as is or handed exactly once, in order, to a replacement constructor", format!("{expected_flat:?}"), format!("{flat:?} kept_unchanged={kept_ok}")))
+        } else if groups != expected_groups {
+            Some(("replaced groups are exactly the reported occurrences (span and text)", format!("{expected_groups:?}"), format!("{groups:?}")))
+        } else {
+            None
+        };
+        if let Some((clause, expected, observed)) = bad {
+            ctx.report(acc, Violation { lang: l.code().into(), entry: "replace_stream".into(), input: serde_json::to_string(&syms).unwrap(), threshold: Some(t), clause: clause.into(), expected, observed });
+        }
+    }
+}
+
 pub fn run(tier: Tier) -> i32 {
     let ctx = Ctx::new("C02", tier);
     let (k, kcore) = tier.pick((3usize, 5usize), (4, 6));
@@ -161,11 +206,13 @@ pub fn run(tier: Tier) -> i32 {
                 one_text(&ctx, acc, l, &lang, &text, has_num);
             }
         }));
+        let words: Vec<String> = vocab::sigma_cls(l).into_iter().take(tier.pick(14, 16)).collect();
+        total.merge(explore::all_sequences2(&words, tier.pick(4, 5), |syms, acc| one_stream(&ctx, acc, l, &lang, syms)));
         total.sample(json!({"lang": l.code(), "text": format!("{}{}{}{}", names[0], ",", "\u{a0}", names[1])}));
     }
     let cov = json!({
         "exhaustive": true,
-        "rule": "every concatenation (no implicit spaces) of <= k atoms: number words, ordinary/linking/ambiguous words, ASCII and Unicode whitespace, punctuation, multi-byte and combining characters, emoji, CJK, non-ASCII digits; thresholds 0 and 10; four clauses (tokens concatenate back; output = independent splice of reported occurrences; no number atom => identical; stream replacement hands each token exactly once, in order); non-trivial = texts with at least one occurrence",
+        "rule": "every concatenation (no implicit spaces) of <= k atoms: number words, ordinary/linking/ambiguous words, ASCII and Unicode whitespace, punctuation, multi-byte and combining characters, emoji, CJK, non-ASCII digits; thresholds 0 and 10; four clauses (tokens concatenate back; output = independent splice of reported occurrences; no number atom => identical; stream replacement hands each token exactly once, in order — on the tokens of the text and on word-only streams of <= k class words, where occurrences can be adjacent); non-trivial = texts with at least one occurrence",
         "bounds": {"depth_all_atoms": k, "depth_core_atoms": kcore},
         "alphabets": sizes,
     });
